@@ -145,6 +145,60 @@ def layers_reach(*a):
     return LAST[1] == ['w.LB']
 
 
+class T2(T):
+    def __init__(self, nm):
+        super().__init__()
+        self.nm = nm
+
+    def __str__(self):
+        return self.nm
+
+
+def tree(h0, v0, h1, v1, h2, v2, hs, vs, ho, vo, at, ly1, lys, use_only, only):
+    """Three tests in one tree - outer[ inner[ t0, t1 ], t2 ] - with symbolic presence of a level on every node (unbounded
+    integers) and of a layer on t1 / inner: every test is yielded at most once, with the level and the layer declared nearest
+    to it; siblings do not influence each other."""
+    global LAST
+    h0, h1, h2, hs, ho, use_only = map(cb, (h0, h1, h2, hs, ho, use_only))
+    ly1, lys = pick([0, 1, 2], ly1), pick([0, 1, 2], lys)
+    ts = [T2('t0'), T2('t1'), T2('t2')]
+    for t, h, v in zip(ts, (h0, h1, h2), (v0, v1, v2)):
+        if h:
+            t.level = v
+    inner = unittest.TestSuite(ts[:2])
+    outer = unittest.TestSuite([inner, ts[2]])
+    if hs:
+        inner.level = vs
+    if ho:
+        outer.level = vo
+    d1, ds = _decl(ly1, 0), _decl(lys, 1)
+    if d1 is not None:
+        ts[1].layer = d1
+    if ds is not None:
+        inner.layer = ds
+    o = _options([])
+    o.at_level = at
+    o.only_level = only if use_only else None
+    got = list(F.tests_from_suite(outer, o, accept=None))
+
+    def lname(d):
+        return d if isinstance(d, str) else d.__module__ + '.' + d.__name__
+    eff = [v0 if h0 else (vs if hs else (vo if ho else 1)), v1 if h1 else (vs if hs else (vo if ho else 1)), v2 if h2 else (vo if ho else 1)]
+    lay = [lname(ds) if ds is not None else UNIT, lname(d1) if d1 is not None else (lname(ds) if ds is not None else UNIT), UNIT]
+    exp = []
+    for t, e, ln in zip(ts, eff, lay):
+        if (e == only) if use_only else (at <= 0 or e <= at):
+            exp.append((t.nm, ln))
+    res = [(g[0].nm, g[1]) for g in got]
+    LAST = (h0, h1, h2, hs, ho, ly1, lys, use_only, tuple(res))
+    return res == exp
+
+
+def tree_reach(*a):
+    tree(*a)
+    return len(LAST[8]) == 2 and LAST[3] and not LAST[0]
+
+
 class _Out:
     def __getattr__(self, n):
         return lambda *a, **k: None
@@ -226,6 +280,17 @@ SPEC = {
          'fidelity': [dict(has_t=True, lt=0, has_s1=True, l1=5, has_s2=False, l2=0, at=1, use_only=False, only=0, all_=False, combo=0),
                       dict(has_t=False, lt=0, has_s1=True, l1=-3, has_s2=True, l2=9, at=0, use_only=True, only=-3, all_=False, combo=0),
                       dict(has_t=False, lt=0, has_s1=False, l1=0, has_s2=True, l2=7, at=2, use_only=False, only=0, all_=True, combo=1)]},
+        {'name': 'tree', 'fn': 'tree',
+         'params': [('h0', 'bool'), ('v0', 'int'), ('h1', 'bool'), ('v1', 'int'), ('h2', 'bool'), ('v2', 'int'), ('hs', 'bool'), ('vs', 'int'), ('ho', 'bool'), ('vo', 'int'),
+                    ('at', 'int'), ('ly1', 'int'), ('lys', 'int'), ('use_only', 'bool'), ('only', 'int')],
+         'call': 'h0, v0, h1, v1, h2, v2, hs, vs, ho, vo, at, ly1, lys, use_only, only',
+         'bounds': {'quick': '0 <= ly1 <= 2 and 0 <= lys <= 2 and (ly1 == 0 or lys == 0)', 'thorough': '0 <= ly1 <= 2 and 0 <= lys <= 2'},
+         'slices': {'quick': ['use_only', 'not use_only and ho', 'not use_only and not ho'],
+                    'thorough': ['%s and %s and %s' % (a, b, c) for a in ('use_only', 'not use_only') for b in ('ho', 'not ho') for c in ('hs', 'not hs')]},
+         'reach': 'tree_reach',
+         'timeout': {'quick': 200, 'thorough': 600},
+         'fidelity': [dict(h0=False, v0=0, h1=True, v1=3, h2=False, v2=0, hs=True, vs=1, ho=True, vo=9, at=2, ly1=2, lys=1, use_only=False, only=0),
+                      dict(h0=True, v0=-1, h1=False, v1=0, h2=True, v2=5, hs=False, vs=0, ho=True, vo=5, at=0, ly1=0, lys=0, use_only=True, only=5)]},
         {'name': 'layers', 'fn': 'layers',
          'params': [('kt', 'int'), ('k1', 'int'), ('k2', 'int'), ('k3', 'int')],
          'call': 'kt, k1, k2, k3',
